@@ -91,6 +91,13 @@ class _Inf:
 # --------------------------------------------------------------------------------------------
 
 
+def term_token(e) -> str:
+    """Stable opaque token of a z3 term (AST ids are not stable across garbage collection): digest of its s-expression."""
+    import hashlib
+
+    return hashlib.md5(e.sexpr().encode()).hexdigest()[:10]
+
+
 def is_sym(x) -> bool:
     return isinstance(x, (SFloat, SInt, SBool))
 
@@ -297,10 +304,10 @@ class SInt:
         return arr.scalar_ufunc(ufunc, method, *inputs, **kw)
 
     def __repr__(self):
-        return f"<SInt {self.e.get_id()}>"
+        return f"[[i#{term_token(self.e)}]]"
 
     def __format__(self, spec):
-        return f"[[i#{self.e.get_id()}]]"
+        return f"[[i#{term_token(self.e)}]]"
 
 
 def lift_int(o):
@@ -467,12 +474,12 @@ class SFloat:
         return arr.scalar_ufunc(ufunc, method, *inputs, **kw)
 
     def __repr__(self):
-        return f"[[f#{self.key}]]"
+        return f"[[f#{term_token(self._b if self._b is not None else self._e)}]]"
 
     __str__ = __repr__
 
     def __format__(self, spec):
-        return f"[[f#{self.key}]]"
+        return f"[[f#{term_token(self._b if self._b is not None else self._e)}{spec}]]"
 
 
 def lift_float(o):
